@@ -120,7 +120,7 @@ theorem buildModel_built (chains : List Chain) (named : List String) (m : Model)
         have := placed_id_lt hpl hn'
         omega
       refine ⟨?_, hids, hsig, rfl⟩
-      refine ⟨⟨maxVersion, rfl, by decide, Nat.le_refl _⟩, ?_, fun n node _ hn => hids n node hn, ?_,
+      refine ⟨⟨maxVersion, rfl, by decide, Nat.le_refl _⟩, ?_, fun n node hn => hids n node hn, ?_,
         fun n node _ hn => hsig n node hn, ?_⟩
       · -- root
         obtain ⟨b, hb, hf⟩ := hidx 0 hd (by simp [hpool])
